@@ -179,3 +179,102 @@ def replay(hist, owner_kind=0):
         if bad:
             return {"step": k, "op": ev["op"], "args": ev["args"], "what": bad}
     return None
+
+
+# ---- code -> spec: random long histories recorded from the real classes (validated by Trace_Landmarks) ----
+def _token(s):
+    v = np.unique(s.points)
+    return int(v[0]) if len(v) == 1 and float(v[0]).is_integer() else -1
+
+
+def record_random(rng, n_ops, names=("n1", "n2", "n3", "n4", "n5")):
+    """Drive real managers / owners with random operations; log every call with the OBSERVED outcome
+    and the observed projection of all managers (name, dim, content token)."""
+    import menpo.transform as mt
+
+    w = World(rng.randint(0, 1))
+    events = []
+    clock = 1
+    held = []
+    own = {1: 2}
+
+    def view():
+        out = []
+        for m in sorted(w.mgrs):
+            mg = w.mgrs[m]
+            out.append([[n, int(mg[n].n_dims), _token(mg[n])] for n in mg.group_labels])
+        return out
+
+    def objs_view():
+        return {str(o): _token(w.objs[o]) for o in held}
+
+    for _ in range(n_ops):
+        mids = sorted(w.mgrs)
+        r = rng.random()
+        ev = None
+        err = ""
+        res = 0
+        keys = []
+        try:
+            if (r < 0.18 and len(w.objs) < 60) or not held:
+                d = rng.choice([2, 2, 3])
+                oid = len(w.objs) + 1
+                s = _mk_shape(oid, d, clock)
+                w.objs[oid] = s
+                held.append(oid)
+                ev = ("new", [d])
+                res = oid
+                clock += 1
+            elif r < 0.33:
+                o = rng.choice(held)
+                mutate(w.objs[o], clock)
+                ev = ("mutate", [o])
+                clock += 1
+            elif r < 0.58:
+                m, n, o = rng.choice(mids), rng.choice(list(names) + [NONE]), rng.choice(held)
+                ev = ("set", [m, n, o])
+                w.mgrs[m][None if n == NONE else n] = w.objs[o]
+                # the stored copy is a NEW object for the model
+                oid = len(w.objs) + 1
+                w.objs[oid] = w.mgrs[m][n]
+            elif r < 0.72:
+                m, n = rng.choice(mids), rng.choice(list(names) + [NONE])
+                ev = ("get", [m, n])
+                h = w.mgrs[m][None if n == NONE else n]
+                found = [o for o, s in w.objs.items() if s is h]
+                res = found[0]
+                if res not in held:
+                    held.append(res)
+            elif r < 0.80:
+                m, n = rng.choice(mids), rng.choice(names)
+                ev = ("del", [m, n])
+                del w.mgrs[m][n]
+            elif r < 0.86:
+                m = rng.choice(mids)
+                ev = ("keys", [m])
+                keys = list(w.mgrs[m])
+            elif r < 0.92 and len(w.mgrs) < 12:
+                m = rng.choice(mids)
+                ev = ("copy_mgr", [m])
+                new = w.mgrs[m].copy()
+                res = len(w.mgrs) + 1
+                w.mgrs[res] = new
+                for n in new.group_labels:
+                    w.objs[len(w.objs) + 1] = new[n]
+            elif r < 0.97 and len(w.mgrs) < 12:
+                wid, m = rng.choice(sorted(w.owners)), rng.choice(mids)
+                ev = ("assign", [wid, m])
+                w.owners[wid].landmarks = w.mgrs[m]
+                res = len(w.mgrs) + 1
+                w.mgrs[res] = w.owners[wid].landmarks
+                own[wid] = res
+                for n in w.mgrs[res].group_labels:
+                    w.objs[len(w.objs) + 1] = w.mgrs[res][n]
+            else:
+                continue
+        except (ValueError, KeyError) as e:
+            err = type(e).__name__
+            res = 0
+        events.append({"op": ev[0], "args": ev[1], "res": res, "err": err, "keys": keys, "mgrs": view(), "objs": objs_view(),
+                       "own": [own[k] for k in sorted(own)]})
+    return {"events": events}
